@@ -292,6 +292,9 @@ func (g *jgen) val(t reflect.Type, depth int) reflect.Value {
 			return v
 		}
 		n := h.Intn(4)
+		if n > 1 {
+			g.feat("multimap")
+		}
 		v.Set(reflect.MakeMapWithSize(t, n))
 		for i := 0; i < n; i++ {
 			v.SetMapIndex(g.val(t.Key(), depth+1), g.val(t.Elem(), depth+1))
@@ -314,6 +317,7 @@ func (g *jgen) val(t reflect.Type, depth int) reflect.Value {
 			g.feat("typednil")
 		case 2:
 			v.Set(reflect.ValueOf(map[string]any{"k": 1.5, "a": []any{nil, "x"}}))
+			g.feat("multimap")
 		case 3:
 			v.Set(reflect.ValueOf([]any{true, json.Number("12"), "s"}))
 		case 4:
